@@ -1,6 +1,7 @@
 """C11 — local deliveries run as the right user, never root (privilege typestate, error
 table, lookup order, writer/reader agreement; the table lookup as a string function and
 "first duplicate wins" are not decided)."""
+import re
 from qv.core import AnalysisBroken
 from qv.esp import Engine, Env, Outcome, TOP, fs
 from qv.lib import QHooks
@@ -684,6 +685,168 @@ def userext_sites(db, rep, qlx):
     return {'userext:accepts-only-existing-nonroot-owner-of-home,longest-name-first,name-inside-its-buffer': (bad is None, 'qmail-getpw.c:userext', bad or '%d scripted password databases' % n, [])}
 
 
+class SpawnRecordHooks(_lt.SAConc, _lt.Conc):
+    """qmail-lspawn spawn(): the forked child on a concrete lookup result (the record nughde_get() leaves behind)"""
+    def __init__(self, record):
+        _lt.Conc.__init__(self, 'spawn')
+        self.record = record
+        self.over = None
+        self.exits, self.execs = [], []
+        self.gid = self.uid = None
+        self.order = []
+
+    def prim_fork(self, E, x, args):
+        return [Outcome(ret=fs(0))]
+
+    def prim_nughde_get(self, E, x, args):
+        sets = {'G:nughde.s': fs(('&', 'NU[0]')), 'G:nughde.len': fs(len(self.record)), '$local': args[0] if args else TOP}
+        sets.update(_lt.conc_string_cells('NU', self.record, terminate=False))
+        return [Outcome(ret=TOP, sets=sets)]
+
+    def materialize(self, E, path):
+        if path.startswith('NU['):
+            k = int(path[3:-1])
+            if self.over is None:
+                self.over = (k, E.trace.list())
+            return fs(0)
+        return _lt.Conc.materialize(self, E, path)
+
+    def materialize_split(self, E, path):
+        return None
+
+    def _zero(self, E, x, args):
+        return [Outcome(ret=fs(0))]
+
+    prim_chdir = prim_fd_move = prim_fd_copy = prim_close = prim_dup2 = prim_setgroups = _zero
+
+    def prim_fcntl(self, E, x, args):
+        return [Outcome(ret=fs(0))]
+
+    def _gid(self, E, x, args):
+        v = _lt._one(args[-1] if x.callee == 'prot_gids' else args[0])
+        self.gid = v & 0xffffffff if isinstance(v, int) else v
+        self.order.append('gid')
+        return [Outcome(ret=fs(0))]
+
+    prim_prot_gid = prim_prot_gids = prim_setgid = _gid
+
+    def prim_prot_uid(self, E, x, args):
+        v = _lt._one(args[0])
+        self.uid = v & 0xffffffff if isinstance(v, int) else v
+        self.order.append('uid')
+        return [Outcome(ret=fs(0), sets={'$uidnow': fs(self.uid)})]
+
+    prim_setuid = prim_prot_uid
+
+    def prim_getuid(self, E, x, args):
+        u = _lt._one(E.get('$uidnow'))
+        return [Outcome(ret=fs(u if isinstance(u, int) else 0))]
+
+    prim_geteuid = prim_getuid
+
+    def prim_execv(self, E, x, args):
+        from qv.esp import ptr_add
+        av = _lt._one(args[1])
+        out = []
+        for k in range(14):
+            q = ptr_add(av, k) if isinstance(av, tuple) else None
+            v = _lt._one(E.get(q[1])) if q is not None else None
+            if v == 0 or v is None:
+                out.append(v)
+                break
+            out.append(v)
+        self.execs.append((out, self.uid, self.gid, list(self.order), dict(E.store)))
+        return 'noreturn'
+
+    prim_execvp = prim_execve = prim_execv
+
+    def prim__exit(self, E, x, args):
+        self.exits.append(_lt._one(args[0]))
+        return 'noreturn'
+
+
+def spawn_record_sites(db, rep, qlx):
+    """spawn() in the child, after the lookup: six NUL-terminated fields user uid gid home dash ext (+ the NUL nughde_get() appends).
+    A complete record starts qmail-local with exactly those fields; a record with fewer fields (a corrupt users/cdb) ends in
+    QLX_USAGE (scan_ulong() may look at the first slack byte behind a truncated record - inside the allocation, stralloc keeps
+    slack - which cannot change the verdict because every field search is bounded by the remaining length); a uid that is 0 - or becomes 0 in uid_t - is refused."""
+    pl = db.program('qmail-lspawn')
+    sp = pl.fn('spawn', 'qmail-lspawn.c')
+    fields = [b'alice', b'1001', b'1002', b'/home/alice', b'-', b'ext']
+    S, R, at = b'sender@s.example', b'alice-ext@h.example', 9
+
+    def rec(fl):
+        return b'\0'.join(fl) + b'\0'
+    cases = [('complete', rec(fields), 'exec', fields)]
+    cases.append(('complete, empty dash and extension', rec([b'bob', b'7', b'8', b'/b', b'', b'']), 'exec', [b'bob', b'7', b'8', b'/b', b'', b'']))
+    cases.append(('a seventh field', rec(fields + [b'junk']), 'exec', fields))
+    for k in range(0, 6):
+        cases.append(('only %d field(s)' % k, rec(fields[:k]) if k else b'\0', 'usage', None))
+    cases.append(('empty record', b'', 'usage', None))
+    for uidtxt, why in ((b'0', 'uid 0'), (b'4294967296', 'a uid that is 0 after conversion to uid_t'), (b'root', 'a uid field without digits')):
+        f2 = list(fields)
+        f2[1] = uidtxt
+        cases.append((why, rec(f2), 'root', None))
+    bad = {}
+    n = 0
+    for what, record, want, fl in cases:
+        H = SpawnRecordHooks(record)
+        st = {0: fs(('fd', 'mess')), 1: fs(('fd', 'out')), 2: fs(('&', 'S[0]')), 3: fs(('&', 'R[0]')), 4: fs(at)}
+        st.update(_lt.conc_string_cells('S', S))
+        st.update(_lt.conc_string_cells('R', R))
+        st['G:aliasempty'] = fs(('&', 'AE[0]'))
+        st.update(_lt.conc_string_cells('AE', b'./Mailbox'))
+        _lt._run_conc(db, rep, pl, sp, st, 'spawn', H)
+        n += 1
+        if len(H.execs) + len(H.exits) != 1:
+            raise AnalysisBroken('qmail-lspawn spawn on a concrete record (%s): %d execs, exits %s' % (what, len(H.execs), H.exits))
+        if H.over is not None and want == 'exec':
+            bad.setdefault('lspawn-record:no-read-at-or-behind-the-end-of-the-lookup-result', ('record %r (%s, %d bytes): byte %d is read' % (record, what, len(record), H.over[0]), H.over[1]))
+        if want == 'usage':
+            if H.execs or H.exits != [qlx['QLX_USAGE']]:
+                bad.setdefault('lspawn-record:incomplete-record-ends-in-QLX_USAGE', ('record %r (%s): %s; documented: exit %d (internal error, the delivery is deferred)' % (
+                    record, what, 'qmail-local is started' if H.execs else 'exit %s' % H.exits, qlx['QLX_USAGE']), []))
+            continue
+        if want == 'root':
+            if H.execs or H.exits != [qlx['QLX_ROOT']]:
+                bad.setdefault('lspawn-record:uid-0-is-refused-whatever-its-spelling', ('record %r (%s): %s; documented: exit %d (never deliver as root)' % (
+                    record, what, 'qmail-local is started with uid %s' % H.execs[0][1] if H.execs else 'exit %s' % H.exits, qlx['QLX_ROOT']), []))
+            continue
+        if not H.execs:
+            bad.setdefault('lspawn-record:qmail-local-gets-user-home-local-dash-ext-host-sender', ('record %r (%s): exit %s instead of starting qmail-local' % (record, what, H.exits), []))
+            continue
+        av, uid, gid, order, store = H.execs[0]
+
+        def text(v):
+            if isinstance(v, tuple) and v[0] == 'str':
+                return bytes((ord(c) & 255) for c in v[1])
+            if isinstance(v, tuple) and v[0] == '&':
+                out = []
+                m = re.match(r'^(.*)\[(-?\d+)\]$', v[1])
+                if not m:
+                    return None
+                for k in range(300):
+                    b = _lt._one(store.get('%s[%d]' % (m.group(1), int(m.group(2)) + k)))
+                    if not isinstance(b, int):
+                        return None
+                    if b == 0:
+                        return bytes(out)
+                    out.append(b & 255)
+            return None
+        got = [text(v) if v != 0 else 0 for v in av]
+        wantav = [b'bin/qmail-local', b'--', fl[0], fl[3], R[:at], fl[4], fl[5], R[at + 1:], S, '*', 0]
+        okav = len(got) == len(wantav) and all(w == '*' or g == w for g, w in zip(got, wantav))
+        if not okav or uid != int(fl[1]) or gid != int(fl[2]) or order != ['gid', 'uid']:
+            bad.setdefault('lspawn-record:qmail-local-gets-user-home-local-dash-ext-host-sender', (
+                'record %r (%s), recipient %r: qmail-local is started with the arguments %s as uid %s gid %s (switched in the order %s); documented: -- user home local dash ext domain sender defaultdelivery = %s as uid %s gid %s, groups/gid before uid' % (
+                    record, what, R, got, uid, gid, order, wantav[:-2], int(fl[1]), int(fl[2])), []))
+    out = {}
+    for k in ('lspawn-record:qmail-local-gets-user-home-local-dash-ext-host-sender', 'lspawn-record:incomplete-record-ends-in-QLX_USAGE',
+              'lspawn-record:uid-0-is-refused-whatever-its-spelling', 'lspawn-record:no-read-at-or-behind-the-end-of-the-lookup-result'):
+        out[k] = (k not in bad, 'qmail-lspawn.c:spawn', bad[k][0] if k in bad else '%d concrete lookup results' % n, bad[k][1] if k in bad else [])
+    return out
+
+
 def run(ctx):
     db, rep = ctx.db, ctx.report
     pl = db.program('qmail-lspawn')
@@ -754,6 +917,9 @@ def run(ctx):
     qlx = {k: u.macro_int(k) for k in u.macros if k.startswith('QLX_')}
     if len(qlx) < 10:
         raise AnalysisBroken('QLX_* macros not found')
+    r7 = rep.rule('C11.7-lookup-result-fields', 'R-TABLE', 'qmail-lspawn spawn() in the child, explored on concrete lookup results: a complete record (user uid gid home dash ext) starts qmail-local with exactly those fields, the recipient split at the @, the sender, and the record\'s uid/gid (groups and gid first); a record with fewer fields ends in QLX_USAGE whatever lies behind it; parsing a complete record reads nothing at or behind its end; a uid that is 0, is spelled without digits or becomes 0 in uid_t is refused with QLX_ROOT')
+    for inst_, v_ in sorted(spawn_record_sites(db, rep, qlx).items()):
+        r7.check(v_[0], inst_, v_[1], v_[2], v_[3])
     rp = pl.fn('report', 'qmail-lspawn.c')
 
     class RepHooks(QHooks):
